@@ -294,7 +294,7 @@ func Fingerprint(f *ssa.Function) ([]string, error) {
 		return nil, err
 	}
 	sort.Strings(lines)
-	return lines, nil
+	return mergeComplementary(lines), nil
 }
 
 func isEffectful(c *ssa.Call) bool {
